@@ -20,6 +20,38 @@ CHECKS = {
                      "distinct variables; every construct is re-judged after every later step against the full truth table of the "
                      "clause database. Exhaustive inside these bounds; longer lists only through the distinct-variable family.",
                 note="Trusted: engine/tt.h bitset truth tables; clause database read with -fno-access-control."),
+    "C07": dict(engine="netmc", category="model_checking", design_ref="DESIGN.md §4 C07",
+                technique="stateless depth-bounded exhaustive exploration of API histories on the real sat_core + theories; reference model set by truth table x Fourier-Motzkin / Floyd-Warshall",
+                text="Every history up to depth 4 (thorough 5) over assume/pop/next/propagate/check/new_clause/simplify_db on every small "
+                     "network of the families (pure SAT clause subsets, LRA-, IDL- and RDL-linked networks) is executed on the real code; "
+                     "after each one every reported value, recorded clause, root assignment, negative answer and refused decision is "
+                     "compared with the exact set of models. Exhaustive within networks/depth; learnt-clause soundness is checked "
+                     "globally, not per conflict-analysis step.",
+                note="Trusted: truth tables (tt.h), FM/FW (fm.h). Histories respect the documented precondition (assume on undefined literals)."),
+    "C08": dict(engine="netmc", category="model_checking", design_ref="DESIGN.md §4 C08",
+                technique="stateless exhaustive exploration of assume/pop/next histories; differential oracle against a fresh network asserting the same literals",
+                text="All assume/pop/next histories up to depth 5 (thorough 7) on five networks built to update the same bound / distance / "
+                     "domain repeatedly across levels; after each history all bounds, distances and domains must equal those of a fresh "
+                     "network in which only the currently true literals were asserted, and at root only root consequences may remain.",
+                note="Comparison is skipped (and counted) when the fresh network derives extra literals. lra.value() is not compared (history dependent by design)."),
+    "C09": dict(engine="netmc", category="model_checking", design_ref="DESIGN.md §4 C09",
+                technique="stateless exhaustive exploration of assert/negate/retract histories on lra_theory; Fourier-Motzkin reference with strictness",
+                text="All 3-atom networks from a pool of 32 (thorough 96) linear atoms over two reals (shared sub-expressions), all "
+                     "assume/pop/next histories up to depth 4 (5): feasibility, values, tableau rows, bounds vs exact projections and "
+                     "validity of every conflict/lemma are decided by Fourier-Motzkin on each history.",
+                note="Two real variables, coefficients in {-1,0,1,2}; termination of pivoting is only covered through the per-case watchdog."),
+    "C10": dict(engine="netmc", category="model_checking", design_ref="DESIGN.md §4 C10",
+                technique="stateless exhaustive exploration of assert/negate/retract histories on idl_theory and rdl_theory; Floyd-Warshall reference",
+                text="All interacting 3-atom networks over 4 time points (matrix growth included) for both theories, all assume/pop/next "
+                     "histories up to depth 4 (5): the whole distance matrix must equal the Floyd-Warshall closure, conflicts iff "
+                     "negative cycle, decided atoms propagated, explanations valid.",
+                note="Integer constants -2..2, half-integers for RDL; +-inf with a residual infinitesimal part is treated as +-inf."),
+    "C14": dict(engine="netmc", category="model_checking", design_ref="DESIGN.md §4 C14",
+                technique="exhaustive enumeration of domain pairs + assume/pop/next/propagate histories on ov_theory; truth-table oracle",
+                text="Every pair of non-empty domains over 3 (thorough 4) values with one or two equality requests: truth table of the "
+                     "database (exactly one value, every allowed value possible, equality <=> same value) and all histories up to depth 5 "
+                     "(domain reported = values not excluded; entailment oracle).",
+                note="The planner-side variant without the exactly-one clause (enforce_exct_one=false) is not covered here."),
 }
 
 PENDING_REASON = "check not built yet in this round (planned, see DESIGN.md §4); not claimed until its quick and thorough tiers have run to completion on the unchanged tree"
@@ -74,6 +106,8 @@ ENGINES = [
      "kind_free_text": "exhaustive operand x operator-form enumeration against reference arithmetic, forked workers"},
     {"name": "reify", "path": "harness/reify.cpp", "serves_properties": ["C13"],
      "kind_free_text": "exhaustive root-level construction histories on sat_core, truth-table oracle"},
+    {"name": "netmc", "path": "harness/netmc.cpp", "serves_properties": ["C07", "C08", "C09", "C10", "C14"],
+     "kind_free_text": "stateless depth-bounded exhaustive exploration of API histories on the real constraint network (history replayed on a fresh network under a deterministic allocator), reference models TT/FM/FW"},
 ]
 
 if __name__ == "__main__":
